@@ -19,6 +19,7 @@ package main
 
 import (
 	"fmt"
+	"math"
 	"runtime"
 	"sort"
 	"strconv"
@@ -411,8 +412,20 @@ wait:
 // iterations must agree, else "var ..."): tok=<sorted token times> fin=<finish> lq=<final Left>
 // cb=<callback count> lneg=<number of negative Left results> lover=<Left results above the total>
 // mono=<0|1> stable=<0|1>.
+//
+//	srace <tree> <G> <iters>  the same WITHOUT Start: the schedule starts itself inside the first Next calls,
+//	                          which overlap (this is how the engine uses schedules: it never calls Start).
+//	                          The start instant S of an iteration is re-derived after the drain from the
+//	                          quiescent finish time (finish - total duration of the tree); every time is printed
+//	                          relative to S and the extra field start=<0|1> says whether S lies between the
+//	                          creation of the schedule and the end of the drain.
 func runRace(f []string) string {
+	self := f[0] == "srace"
+	totalDur := time.Duration(0)
 	tree := parseTree(f[1])
+	if self {
+		totalDur = time.Duration(durOf(tree))
+	}
 	g, _ := strconv.Atoi(f[2])
 	iters, _ := strconv.Atoi(f[3])
 	total, _ := countTokens(tree)
@@ -436,7 +449,11 @@ func runRace(f []string) string {
 		var cb int32
 		top := coreutil.NewCallbackOnFinishSchedule(b.top, func() { atomic.AddInt32(&cb, 1) })
 		t0 := time.Now().Add(-time.Duration(past))
-		top.Start(t0)
+		if self {
+			t0 = time.Now() // reference instant only; times are re-based on the real start below
+		} else {
+			top.Start(t0)
+		}
 		var ready int32
 		var wg sync.WaitGroup
 		var mu sync.Mutex
@@ -513,6 +530,30 @@ func runRace(f []string) string {
 			return "panic"
 		}
 		lq := top.Left()
+		startOK := true
+		if self {
+			// all goroutines are done: the finish time the schedule answers now, minus the total duration
+			// of the profile, is the instant it was started at
+			finq, _ := top.Next()
+			wEnd := time.Now()
+			st := finq.Add(-totalDur)
+			startOK = !st.Before(t0) && !st.After(wEnd)
+			off := int64(st.Sub(t0))
+			rebase := func(d int64) int64 {
+				if d == math.MinInt64 || d == math.MaxInt64 {
+					return d // time.Time.Sub saturated: a time centuries away from the run
+				}
+				return d - off
+			}
+			for i := range toks {
+				toks[i] = rebase(toks[i])
+			}
+			nf := map[int64]bool{}
+			for k := range fins {
+				nf[rebase(k)] = true
+			}
+			fins = nf
+		}
 		sort.Slice(toks, func(i, j int) bool { return toks[i] < toks[j] })
 		p := make([]string, len(toks))
 		for i, t := range toks {
@@ -531,6 +572,9 @@ func runRace(f []string) string {
 			fs = "several"
 		}
 		cur := fmt.Sprintf("tok=%s fin=%s lq=%d cb=%d", ts, fs, lq, atomic.LoadInt32(&cb))
+		if self {
+			cur += " start=" + vh.B(startOK)
+		}
 		if it == 0 {
 			first = cur
 		} else if cur != first {
@@ -557,8 +601,10 @@ func runCase(c string) (out string) {
 		return runSeq(f)
 	case "conc":
 		return runConc(f)
-	case "race":
+	case "race", "srace":
 		return runRace(f)
+	case "fact":
+		return runFact(f)
 	}
 	return "unknown-case"
 }
@@ -796,6 +842,47 @@ func gen(r *vh.Rand, tier string) []string {
 		}
 		out = append(out, fmt.Sprintf("race %s %d %d", t, r.Range(2, maxG), riters))
 	}
+	// self-starting schedules under contention (the engine never calls Start: the first Next calls of
+	// the instances sharing a schedule start it): small finite trees, 2-4 (sometimes more) callers
+	// released together, many short drains
+	nsr, sriters := 16, 12000
+	if tier == "thorough" {
+		nsr, sriters = 80, 60000
+	}
+	for i := 0; i < nsr; i++ {
+		var t *node
+		switch i % 8 {
+		case 0:
+			t = &node{kind: "once", p: []int64{int64(r.Range(1, 3))}}
+		case 1:
+			t = &node{kind: "comp", kids: []*node{{kind: "once", p: []int64{int64(r.Range(1, 2))}}, {kind: "const", p: []int64{int64(r.PickInt([]int{1000, 2000})), 2000000000}}}}
+		case 2:
+			t = &node{kind: "const", p: []int64{int64(r.PickInt([]int{1000, 2000, 3500})), int64(r.PickInt([]int{1000000000, 2000000000}))}}
+		case 3:
+			t = &node{kind: "istep", p: []int64{int64(r.Range(1, 2)), int64(r.Range(3, 6)), int64(r.Range(1, 2)), 1000000}}
+		case 4:
+			t = &node{kind: "comp", kids: []*node{{kind: "once", p: []int64{1}}, {kind: "once", p: []int64{int64(r.Range(1, 3))}}, {kind: "line", p: []int64{1000, 3000, 1000000000}}}}
+		case 5:
+			t = &node{kind: "comp", kids: []*node{{kind: "comp", kids: []*node{{kind: "once", p: []int64{int64(r.Range(0, 1))}}, {kind: "once", p: []int64{1}}}}, {kind: "const", p: []int64{1000, 1000000000}}}}
+		default:
+			t = genTree(r, 2, false, false)
+		}
+		fillTables(t)
+		tok, _ := countTokens(t)
+		if tok > 40 {
+			continue
+		}
+		it := sriters
+		if tok > 8 {
+			it = sriters / 4
+		}
+		g := r.Range(2, 4)
+		if r.Chance(1, 4) {
+			g = r.Range(2, maxG)
+		}
+		out = append(out, fmt.Sprintf("srace %s %d %d", t, g, it))
+	}
+	out = append(out, genFact(r, tier)...)
 	return out
 }
 
